@@ -8,14 +8,22 @@ Definition Sx (cpp : bool) (ts : list ptok) (tr : ast) (rk : nat) : Prop :=
   forall f d s rest out n,
     rk <= d -> d <= 15 ->
     n + length ts <= f -> length (ts ++ rest) <= f ->
-    opos (bef s) -> nojux rest -> ND (bef s) (ts ++ rest) ->
+    opos (bef s) -> pstart (bef s) ts -> nojux rest -> ND (bef s) (ts ++ rest) ->
     (forall r a, r < rk -> quiet cpp r (rev ts ++ bef s) a rest) ->
     (rk = 14 -> forall a, quiet cpp 14 (rev ts ++ bef s) (S a) rest) ->
     cont cpp (comp cpp f) (S f) n rk d (mkafter s ts tr, rest) = Some out ->
     comp cpp (S f) d (s, ts ++ rest) = Some out.
 
-Definition starter1 (ts : list ptok) : Prop :=
-  match ts with t :: _ => match snd t with TId _ | TNum _ | TLP => True | _ => False end | [] => False end.
+Definition starter1 (ts : list ptok) : Prop := lead_ok ts = true.
+
+Lemma pstart_vac : forall b ts, hd_is is_incdec b = false -> pstart b ts.
+Proof. intros b ts H H'. rewrite H in H'. discriminate. Qed.
+
+Lemma pstart_app_l : forall b (ra rb : list ptok), ra <> [] -> pstart b (ra ++ rb) -> pstart b ra.
+Proof. intros b [|t ra] rb H Hp; [contradiction|exact Hp]. Qed.
+
+Lemma lpn_0 : forall cpp rec r z, lpn cpp rec r 0 z = None.
+Proof. intros. do 16 (destruct r as [|r]; [reflexivity|]). reflexivity. Qed.
 
 Definition ender (ts : list ptok) : Prop :=
   exists pre t, ts = pre ++ [t] /\ strict_ender (snd t) = true.
@@ -32,7 +40,7 @@ Lemma Sx_atom : forall cpp t,
   match snd t with TLB => False | _ => True end ->
   Sx cpp [t] (L t) 0.
 Proof.
-  intros cpp t Hterm Hnlb f d s rest out n Hrk Hd Hn Hlen Hop Hj Hnd Hq Hq14 Hc.
+  intros cpp t Hterm Hnlb f d s rest out n Hrk Hd Hn Hlen Hop Hps Hj Hnd Hq Hq14 Hc.
   rewrite comp_eq. cbn [app].
   assert (Hh : p2_head (s, t :: rest) = Some (mkafter s [t] (L t), rest)).
   { unfold p2_head. destruct (snd t) eqn:E; try (unfold scope; apply Hterm; assumption). destruct Hnlb. }
@@ -93,7 +101,7 @@ Lemma Sx_paren : forall cpp ts tr rk l1 l2,
   Sx cpp ts tr rk -> rk <= 15 -> balanced ts ->
   Sx cpp ((l1, TLP) :: ts ++ [(l2, TRP)]) tr 0.
 Proof.
-  intros cpp ts tr rk l1 l2 IH Hrk15 Hbal f d s rest out n _ Hd Hn Hlen Hop Hj Hnd _ _ Hc.
+  intros cpp ts tr rk l1 l2 IH Hrk15 Hbal f d s rest out n _ Hd Hn Hlen Hop _ Hj Hnd _ _ Hc.
   cbn [length] in Hn. rewrite app_length in Hn. cbn [length] in Hn.
   cbn [app] in *. rewrite <- app_assoc in *. cbn [app] in *.
   cbn [length] in Hlen. rewrite app_length in Hlen. cbn [length] in Hlen.
@@ -110,7 +118,8 @@ Proof.
     - lia.
     - lia.
     - rewrite app_length. cbn [length]. lia.
-    - cbn. split; reflexivity.
+    - cbn. split; [reflexivity|discriminate].
+    - apply pstart_vac. reflexivity.
     - reflexivity.
     - unfold s1. cbn [set_bef bef]. apply ND_cons. exact Hnd.
     - intros r a Hr. apply quiet_closer; [left; reflexivity|lia].
@@ -144,14 +153,23 @@ Qed.
 Lemma binrank_range : forall o, 3 <= binrank o /\ binrank o <= 13.
 Proof. destruct o; cbn; lia. Qed.
 
-Lemma classify_take : forall cpp o s l t1 r',
-  match snd t1 with TId _ | TNum _ | TLP => True | _ => False end ->
-  classify cpp (binrank o) (s, (l, TOp (bin_opr o)) :: t1 :: r') = Take.
+Lemma classify_take : forall cpp o s l r,
+  lead_ok r = true ->
+  classify cpp (binrank o) (s, (l, TOp (bin_opr o)) :: r) = Take.
 Proof.
-  intros cpp o s l t1 r' H1.
-  destruct o; cbn [binrank bin_prec bin_opr Nat.sub classify snd];
-    try reflexivity; destruct t1 as [l1 k1]; cbn [snd] in H1; destruct k1; try destruct H1;
-    cbn; rewrite ?andb_false_r; reflexivity.
+  intros cpp o s l r H1.
+  pose proof (lead_not_qualifier r H1) as Hq.
+  pose proof (lead_not_comma_rp r H1) as Hc.
+  destruct o; cbn [binrank bin_prec bin_opr Nat.sub classify snd]; try reflexivity.
+  - (* * *) cbn [is_qualifier]. rewrite Hq. rewrite star_jump_none by exact H1. reflexivity.
+  - (* & *) cbn [is_qualifier]. rewrite Hq. destruct r as [|t2 r2]; [discriminate|].
+    cbn [hd_is] in Hc. destruct (is_amp (snd t2)) eqn:E.
+    + assert (H2 : lead_ok r2 = true).
+      { cbn [lead_ok] in H1. destruct (snd t2); try discriminate. destruct o; try discriminate. exact H1. }
+      rewrite (lead_not_comma_rp r2 H2), andb_false_r. reflexivity.
+    + rewrite Hc, andb_false_r. reflexivity.
+  - (* && *) cbn [is_qualifier]. rewrite Hq. destruct r as [|t2 r2]; [discriminate|].
+    cbn [hd_is] in Hc. rewrite Hc, andb_false_r. reflexivity.
 Qed.
 
 Lemma bin_opr_not_incdec : forall o, is_incdec (TOp (bin_opr o)) = false.
@@ -166,14 +184,14 @@ Lemma Sx_bin : forall cpp o l ra ta ka rb tb kb,
   ender ra -> starter1 rb -> ra <> [] ->
   Sx cpp (ra ++ (l, TOp (bin_opr o)) :: rb) (B (l, TOp (bin_opr o)) ta tb) (binrank o).
 Proof.
-  intros cpp o l ra ta ka rb tb kb IHa IHb Hka Hkb Hend Hst Hra f d s rest out n Hrk Hd Hn Hlen Hop Hj Hnd Hq Hq14 Hc.
+  intros cpp o l ra ta ka rb tb kb IHa IHb Hka Hkb Hend Hst Hra f d s rest out n Hrk Hd Hn Hlen Hop Hps Hj Hnd Hq Hq14 Hc.
   destruct (binrank_range o) as [Hk3 Hk13].
   set (k := binrank o) in *. set (op := (l, TOp (bin_opr o))) in *.
   rewrite app_length in Hn. cbn [length] in Hn.
   rewrite <- app_assoc in *. cbn [app] in *.
   rewrite app_length in Hlen. cbn [length] in Hlen. rewrite app_length in Hlen.
   assert (Hla : 1 <= length ra) by (destruct ra; [contradiction|cbn; lia]).
-  destruct rb as [|t1 rb']; [destruct Hst|]. cbn [starter1] in Hst.
+  destruct rb as [|t1 rb']; [discriminate Hst|]. unfold starter1 in Hst.
   set (rb := t1 :: rb') in *.
   destruct f as [|f']; [lia|].
   set (sa := mkafter s ra ta).
@@ -188,7 +206,9 @@ Proof.
       - lia.
       - cbn [length] in *. lia.
       - rewrite app_length. cbn [length] in *. lia.
-      - cbn. split; [reflexivity|apply bin_opr_not_incdec].
+      - unfold s1. cbn [bef]. split; [reflexivity|]. intros H. exfalso. revert H. unfold op. cbn [snd].
+        rewrite bin_opr_not_incdec. discriminate.
+      - apply pstart_vac. apply bin_opr_not_incdec.
       - exact Hj.
       - unfold s1, sa, mkafter. cbn [bef].
         assert (H := ND_app (ra ++ [op]) (bef s) (rb ++ rest)).
@@ -210,8 +230,8 @@ Proof.
   { intros m Hm Hm2. replace (lpn cpp (comp cpp (S f')) k (S m) (sa, op :: rb ++ rest))
       with (bin_loop cpp (comp cpp (S f')) k (S m) (sa, op :: rb ++ rest))
       by (destruct k as [|k0]; [lia|]; cbn [lpn]; symmetry; apply loop_at_bin; lia).
-    cbn [bin_loop]. unfold rb at 1. cbn [app]. unfold op at 1, k at 1. rewrite classify_take by exact Hst.
-    fold k. fold op. change (t1 :: rb' ++ rest) with (rb ++ rest). rewrite Hbin.
+    cbn [bin_loop]. unfold op at 1, k at 1. rewrite classify_take by (apply lead_ok_app; exact Hst).
+    fold k. fold op. rewrite Hbin.
     unfold cont in Hc.
     destruct (lpn cpp (comp cpp (S f')) k n (s', rest)) as [z'|] eqn:E; [|discriminate].
     assert (E' : bin_loop cpp (comp cpp (S f')) k n (s', rest) = Some z').
@@ -224,6 +244,7 @@ Proof.
   - cbn [length] in *. lia.
   - rewrite app_length. cbn [length]. rewrite app_length. lia.
   - exact Hop.
+  - apply (pstart_app_l _ ra (op :: rb) Hra). exact Hps.
   - reflexivity.
   - exact Hnd.
   - intros r a0 Hr. apply quiet_binop; [apply ender_aft; exact Hend|]. fold k. lia.
